@@ -208,7 +208,26 @@ pub fn dump_mir<'tcx>(cx: &Cx<'tcx>, ldid: LocalDefId) -> J {
             }
             TerminatorKind::Assert { cond, expected, msg, target, .. } => {
                 t.push(("k", J::s("Assert")));
-                let (kind, all_const, operands) = assert_kind(cx, msg);
+                let (kind, mut all_const, operands) = assert_kind(cx, msg);
+                if matches!(&**msg, AssertKind::DivisionByZero(_) | AssertKind::RemainderByZero(_)) {
+                    // the message operand is the dividend; the assert is infeasible only when the *divisor* is a non-zero
+                    // constant: `cond = Eq(divisor, const 0)` is the statement that defines the condition in this block
+                    all_const = false;
+                    if let Operand::Move(pl) | Operand::Copy(pl) = cond {
+                        for st in data.statements.iter().rev() {
+                            if let rustc_middle::mir::StatementKind::Assign(bx) = &st.kind {
+                                let (lhs, rv) = &**bx;
+                                if lhs == pl {
+                                    if let rustc_middle::mir::Rvalue::BinaryOp(rustc_middle::mir::BinOp::Eq, ops) = rv {
+                                        let (a, _b) = &**ops;
+                                        all_const = operand_is_const(a) && !format!("{:?}", a).starts_with("const 0_");
+                                    }
+                                    break;
+                                }
+                            }
+                        }
+                    }
+                }
                 t.push(("assert", J::s(kind)));
                 t.push(("all_const", J::B(all_const)));
                 t.push(("operands", J::s(operands)));
